@@ -126,3 +126,10 @@ Definition CRLF : bytes := [13; 10]%N.
 Definition CRLFCRLF : bytes := [13; 10; 13; 10]%N.
 
 Definition blen (b : bytes) : N := N.of_nat (length b).
+
+Lemma skipn_skipn {A} : forall a b (l : list A), skipn a (skipn b l) = skipn (a + b) l.
+Proof.
+  intros a b. revert a. induction b as [|b IH]; intros a l.
+  - rewrite Nat.add_0_r. reflexivity.
+  - destruct l as [|x l]; [rewrite !skipn_nil; reflexivity|]. rewrite Nat.add_succ_r. cbn [skipn]. apply IH.
+Qed.
